@@ -277,13 +277,15 @@ def part_ctor(ctx, res):
 PATHS = ["from_tag", "parent.children", "get_elements", "xpath", "get_element", "child.parent", "clone", "from_tag_for_clone"]
 
 
-def part_dispatch(ctx, res):
+def part_dispatch(ctx, res, only=None):
     from odfdo import Element
 
     reg, classes = registry()
     srcs = [{"kind": "template", "name": t} for t in DL.TEMPLATES] + [{"kind": "sample", "name": s} for s in DL.sample_files()]
+    if only is not None:
+        srcs = [only["source"]]
     for si, src in enumerate(srcs):
-        if not ctx.mine(si):
+        if only is None and not ctx.mine(si):
             continue
         doc = DL.open_source(src)
         seen_tags = set()
@@ -296,10 +298,21 @@ def part_dispatch(ctx, res):
             root = root_el._Element__element
             per_tag = {}
             for n in root.iter():
-                if isinstance(n.tag, str) and n.tag in reg and per_tag.get(n.tag, 0) < (2 if ctx.quick else 6):
+                if only is not None and (n.tag != only["tag"] or part_name != only["part"]):
+                    continue
+                known = isinstance(n.tag, str) and n.tag in reg
+                if isinstance(n.tag, str) and not known:
+                    # a tag without a specialised class is a plain Element through every path; sampled where a
+                    # neighbour (first child, parent) has a specialised class, which is what a path could borrow
+                    kid = next((c for c in n if isinstance(c.tag, str)), None)
+                    par0 = n.getparent()
+                    if not ((kid is not None and kid.tag in reg) or (par0 is not None and par0.tag in reg)):
+                        continue
+                if isinstance(n.tag, str) and per_tag.get(n.tag, 0) < ((2 if ctx.quick else 6) if known else (1 if ctx.quick else 3)):
                     per_tag[n.tag] = per_tag.get(n.tag, 0) + 1
-                    seen_tags.add(n.tag)
-                    expect = reg[n.tag]
+                    if known:
+                        seen_tags.add(n.tag)
+                    expect = reg[n.tag] if known else Element
                     q = etree.QName(n)
                     prefix = n.prefix
                     case = {"kind": "dispatch", "source": src, "part": part_name, "tag": n.tag}
@@ -335,7 +348,7 @@ def part_dispatch(ctx, res):
                             res.violation(f"dispatch-raised:{path}:{type(ex).__name__}", {"tag": n.tag, "exc": repr(ex)}, case)
                             continue
                         res.judge()
-                        res.cls(("dispatch", expect.__name__, path), True)
+                        res.cls(("dispatch", expect.__name__ if known else "unregistered:" + etree.QName(n).localname, path), True)
                         if not got:
                             res.violation(f"dispatch:node-not-reached:{path}", {"tag": n.tag}, case)
                         elif any(type(g) is not expect for g in got):
@@ -384,7 +397,44 @@ def part_content_roundtrip(ctx, res):
                 break
 
 
+TEXT_ARGS = ["plain", "é 日", "a&b<c>\"q'", "two  spaces", " lead", "trail ", "tab\there", "line\nbreak", "nbsp\u00a0here", "thin\u2009space", "wide\u3000space",
+             "nnbsp\u202fx", "mixed \u00a0 \t x", ""]
+
+
+def part_text_args(ctx, res):
+    """The text argument of the text classes, with formatted True (kept exactly) and False (runs of
+    SPACE / TAB / LF become one space, as documented; every other character is kept)."""
+    import re
+
+    from odfdo import Element, Header, Paragraph, Span
+
+    makers = {
+        "Paragraph": lambda t, f: Paragraph(t, formatted=f),
+        "Header": lambda t, f: Header(2, t, formatted=f),
+        "Span": lambda t, f: Span(t, formatted=f),
+        "Paragraph.append": lambda t, f: (lambda p: (p.append(t, formatted=f), p)[1])(Paragraph("")),
+    }
+    for name, mk in makers.items():
+        for t in TEXT_ARGS:
+            for f in (True, False):
+                res.judge()
+                res.cls(("text-arg", name, "formatted" if f else "unformatted", "nonascii-space" if re.search("[\u00a0\u2009\u3000\u202f]", t) else "ascii"), True)
+                case = {"kind": "text-arg", "maker": name, "text": t, "formatted": f}
+                try:
+                    el = mk(t, f)
+                    exp = t if f else re.sub("[ \t\n]+", " ", t)
+                    back = Element.from_tag(el.serialize(with_ns=True))
+                    for label, got in (("inner_text", el.inner_text), ("reparse", back.inner_text)):
+                        if got != exp:
+                            res.violation(f"text-arg:{name}:{label}-differs", {"given": t, "formatted": f, "got": got, "expected": exp}, case)
+                            break
+                except Exception as ex:
+                    res.violation(f"text-arg-raised:{name}:{type(ex).__name__}", {"given": t, "exc": repr(ex)}, case)
+
+
 def run(ctx, res):
+    if ctx.shard == 0:
+        part_text_args(ctx, res)
     part_ctor(ctx, res)
     part_dispatch(ctx, res)
     part_content_roundtrip(ctx, res)
@@ -403,11 +453,21 @@ def replay(case):
         back = Element.from_tag(e.serialize())
         if c14n_notail(back._Element__element) != c14n_notail(e._Element__element):
             return [{"mechanism": "content-roundtrip:differs", "detail": {"before": e.serialize()[-300:], "after": back.serialize()[-300:]}}]
+    if case.get("kind") == "dispatch":
+        class _Q:
+            quick = False
+        part_dispatch(_Q, res, only=case)
+        return res.violations
+    if case.get("kind") == "text-arg":
+        class _C:
+            shard = 0
+        part_text_args(_C, res)
+        return [v for v in res.violations if v["case"] == case]
     return res.violations
 
 
 MANIFEST = {
-    "text": "Exploration by runtime monitoring: the element class registry is enumerated at run time; each class is instantiated with every observable constructor argument alone (all values of its generator or enumeration), all together and in random subsets, and the monitor checks that each argument is readable through its same-named property (not dropped or altered), that both serialisations come back through from_tag as the same class with a C14N-equal tree and equal property values, and that clone does too; over every template and sample, every registered tag present is reached through eight access paths that must all yield the registered class, and the sampled nodes must round-trip; paragraph-like content with white-space-only text nodes between elements must round-trip. Held = no argument lost, no class or infoset change on what was observed, apart from listed findings.",
+    "text": "Exploration by runtime monitoring: the element class registry is enumerated at run time; each class is instantiated with every observable constructor argument alone (all values of its generator or enumeration), all together and in random subsets, and the monitor checks that each argument is readable through its same-named property (not dropped or altered), that both serialisations come back through from_tag as the same class with a C14N-equal tree and equal property values, and that clone does too; over every template and sample, every registered tag present is reached through eight access paths that must all yield the registered class (and tags without a specialised class, next to one that has, a plain Element), and the sampled nodes must round-trip; the text argument of the text classes is read back with formatted True and False over strings with ASCII and non-ASCII white space; paragraph-like content with white-space-only text nodes between elements must round-trip. Held = no argument lost, no class or infoset change on what was observed, apart from listed findings.",
     "note": "Trusted: the convention 'constructor argument == same-named property'; the enumeration table for closed domains; lxml C14N. Classes judged elsewhere (Cell: C06, NamedRange: C19, Style: C13) are skipped here; transformed/content arguments are listed in TRANSFORMED.",
     "technique": "runtime monitoring: construction/round-trip oracle over the run-time class registry + dispatch monitor over every access path on the corpus",
 }
